@@ -211,3 +211,214 @@ Proof.
   intros s o Hs H. unfold unescape in H. destruct (cmp_eval CF.str_len_cmp _ _); [discriminate|].
   exact (unescape_go_scalar s 0 o Hs H).
 Qed.
+
+(* ================================================================== POS numbering *)
+Lemma posrow_eqb_eq : forall a b, posrow_eqb a b = true <-> a = b.
+Proof.
+  induction a as [|x a IH]; destruct b as [|y b]; cbn [posrow_eqb]; split; intros H; try reflexivity; try discriminate.
+  - apply andb_true_iff in H as [H1 H2]. apply text_eqb_eq in H1. apply IH in H2. subst. reflexivity.
+  - inversion H; subst. apply andb_true_iff. split; [apply text_eqb_eq; reflexivity|apply IH; reflexivity].
+Qed.
+
+Lemma index_of_row_some : forall p l i r, index_of_row p l i = Some r ->
+  exists n, r = i + N.of_nat n /\ nth_error l n = Some p /\ forall m q, (m < n)%nat -> nth_error l m = Some q -> q <> p.
+Proof.
+  induction l as [|x t IH]; intros i r H; cbn [index_of_row] in H; [discriminate|].
+  destruct (posrow_eqb x p) eqn:E.
+  - inversion H; subst. apply posrow_eqb_eq in E. subst x. exists 0%nat. split; [lia|]. split; [reflexivity|]. intros m q Hm. lia.
+  - destruct (IH _ _ H) as (n & -> & Hn & Hfirst). exists (S n). split; [lia|]. split; [exact Hn|].
+    intros m q Hm Hq. destruct m as [|m]; cbn [nth_error] in Hq.
+    + inversion Hq; subst. intros ->. assert (posrow_eqb p p = true) by (apply posrow_eqb_eq; reflexivity). congruence.
+    + apply (Hfirst m q); [lia|exact Hq].
+Qed.
+
+Lemma index_of_row_none : forall p l i, index_of_row p l i = None <-> ~ In p l.
+Proof.
+  induction l as [|x t IH]; intros i; cbn [index_of_row In]; [tauto|].
+  destruct (posrow_eqb x p) eqn:E.
+  - apply posrow_eqb_eq in E. subst x. split; [discriminate|]. intros H. exfalso. apply H. left. reflexivity.
+  - rewrite IH. split; [|tauto]. intros H [Hx|Hin]; [|tauto]. subst x.
+    assert (posrow_eqb p p = true) by (apply posrow_eqb_eq; reflexivity). congruence.
+Qed.
+
+Lemma NoDup_snoc : forall {A} (l : list A) a, NoDup l -> ~ In a l -> NoDup (l ++ [a]).
+Proof.
+  induction l as [|x t IH]; intros a Hnd Hin; cbn [app]; [constructor; [intros []|constructor]|].
+  inversion Hnd; subst. constructor.
+  - intros Hc. apply in_app_or in Hc as [Hc|[Hc|[]]]; [contradiction|]. subst. apply Hin. left. reflexivity.
+  - apply IH; [assumption|]. intros Hc. apply Hin. right. exact Hc.
+Qed.
+
+(* the limit facts the numbering rests on *)
+Definition pos_limit_ok : bool :=
+  (match CF.pos_limit_cmp with CGt => true | _ => false end) && (0 <=? CF.MAX_POS_IDS)%Z && (CF.MAX_POS_IDS <=? 65534)%Z.
+
+Definition pos_inv (st : pos_state) : Prop := NoDup st /\ (Z.of_nat (List.length st) <= CF.MAX_POS_IDS + 1)%Z.
+
+Lemma pos_of_spec : pos_limit_ok = true -> forall st p st' id, pos_inv st -> pos_of st p = ROk (st', id) ->
+  pos_inv st' /\ nth_error st' (N.to_nat id) = Some p /\ (Z.of_N id <= CF.MAX_POS_IDS)%Z /\
+  ((In p st /\ st' = st) \/ (~ In p st /\ st' = st ++ [p] /\ id = N.of_nat (List.length st))).
+Proof.
+  unfold pos_limit_ok. intros HL st p st' id [Hnd Hlen] H.
+  apply andb_true_iff in HL as [HL H65]. apply andb_true_iff in HL as [Hcmp H0].
+  unfold pos_of in H. destruct (index_of_row p st 0) as [i|] eqn:E.
+  - inversion H; subst st' id. destruct (index_of_row_some _ _ _ _ E) as (n & -> & Hn & _).
+    split; [split; assumption|]. split; [replace (N.to_nat (0 + N.of_nat n)) with n by lia; exact Hn|].
+    assert (n < List.length st)%nat by (apply nth_error_Some; congruence).
+    split; [lia|]. left. split; [eapply nth_error_In; exact Hn|reflexivity].
+  - destruct CF.pos_limit_cmp; try discriminate. cbn [cmp_eval] in H.
+    destruct (Z.of_nat (List.length st) >? CF.MAX_POS_IDS)%Z eqn:Eg; [discriminate|].
+    inversion H; subst st' id. apply (index_of_row_none p st 0) in E.
+    assert (Hle : (Z.of_nat (List.length st) <= CF.MAX_POS_IDS)%Z) by lia.
+    split.
+    + split.
+      * apply NoDup_snoc; assumption.
+      * rewrite app_length. cbn [List.length]. lia.
+    + split; [|split; [lia|right; repeat split; [exact E|lia]]].
+      replace (N.to_nat (Z.to_N (Z.of_nat (List.length st)))) with (List.length st) by lia.
+      rewrite nth_error_app2 by lia. rewrite Nat.sub_diag. reflexivity.
+Qed.
+
+Lemma existsb_posrow_in : forall p st, existsb (posrow_eqb p) st = true <-> In p st.
+Proof.
+  intros p st. rewrite existsb_exists. split.
+  - intros (x & Hin & E). apply posrow_eqb_eq in E. subst. exact Hin.
+  - intros H. exists p. split; [exact H|apply posrow_eqb_eq; reflexivity].
+Qed.
+
+Lemma nth_error_app_keep : forall {A} (l l' : list A) n x, nth_error l n = Some x -> nth_error (l ++ l') n = Some x.
+Proof. intros A l l' n x H. rewrite nth_error_app1; [exact H|]. apply nth_error_Some. congruence. Qed.
+
+(* C05_pos_ids_spec *)
+Theorem assign_spec : pos_limit_ok = true -> forall ps st st' ids, pos_inv st -> assign st ps = ROk (st', ids) ->
+  (* the table only grows, by the new rows in order of first appearance, each once *)
+  st' = st ++ new_rows st ps /\ pos_inv st' /\
+  List.length ids = List.length ps /\
+  (* pos_table[id] = the row, ids fit the limit (hence u16) *)
+  (forall i p, nth_error ps i = Some p ->
+     nth_error st' (N.to_nat (nth i ids 0%N)) = Some p /\ (Z.of_N (nth i ids 0%N) <= CF.MAX_POS_IDS)%Z).
+Proof.
+  intros HL. induction ps as [|p t IH]; intros st st' ids Hinv H; cbn [assign] in H.
+  - inversion H; subst. cbn [new_rows]. rewrite app_nil_r. split; [reflexivity|]. split; [exact Hinv|]. split; [reflexivity|].
+    intros [|i] q Hq; discriminate.
+  - destruct (pos_of st p) as [[st1 id]|] eqn:Ep; [|discriminate]. cbn [bind fst snd] in H.
+    destruct (assign st1 t) as [[st2 ids']|] eqn:Et; [|discriminate]. cbn [bind fst snd] in H. inversion H; subst st' ids.
+    destruct (pos_of_spec HL st p st1 id Hinv Ep) as (Hinv1 & Hnth & Hle & Hcase).
+    destruct (IH st1 st2 ids' Hinv1 Et) as (E2 & Hinv2 & Hlen & Hall).
+    split.
+    { cbn [new_rows]. destruct Hcase as [[Hin ->]|(Hnin & -> & _)].
+      - rewrite (proj2 (existsb_posrow_in p st) Hin). exact E2.
+      - destruct (existsb (posrow_eqb p) st) eqn:Ee; [apply existsb_posrow_in in Ee; contradiction|].
+        rewrite E2, <- app_assoc. reflexivity. }
+    split; [exact Hinv2|]. split; [cbn [List.length]; rewrite Hlen; reflexivity|].
+    intros [|i] q Hq; cbn [nth_error nth] in *.
+    + inversion Hq; subst q. split; [|exact Hle]. rewrite E2. apply nth_error_app_keep. exact Hnth.
+    + apply Hall. exact Hq.
+Qed.
+
+(* equal rows get equal ids and different rows different ids *)
+Theorem assign_injective : pos_limit_ok = true -> forall ps st st' ids, pos_inv st -> assign st ps = ROk (st', ids) ->
+  forall i j p q, nth_error ps i = Some p -> nth_error ps j = Some q -> (p = q <-> nth i ids 0 = nth j ids 0).
+Proof.
+  intros HL ps st st' ids Hinv H i j p q Hp Hq.
+  destruct (assign_spec HL ps st st' ids Hinv H) as (_ & [Hnd _] & _ & Hall).
+  destruct (Hall i p Hp) as [Hi _]. destruct (Hall j q Hq) as [Hj _]. split.
+  - intros <-. assert (E : N.to_nat (nth i ids 0) = N.to_nat (nth j ids 0)).
+    { apply (proj1 (NoDup_nth_error st') Hnd); [apply nth_error_Some; congruence|congruence]. }
+    lia.
+  - intros E. rewrite E in Hi. congruence.
+Qed.
+
+(* the numbering is the one C12's model (Model/LexSet.v: register_pos / assign_pos over interned POS) uses, for any
+   injective interning of the six-string rows as numbers, as long as the limit is not hit *)
+From SudachiVerif Require Model.LexSet.
+Section Interned.
+Variable enc : posrow -> N.
+Hypothesis enc_inj : forall a b, enc a = enc b -> a = b.
+
+Lemma index_of_interned : forall p l i, LexSet.index_of (enc p) (map enc l) i = index_of_row p l i.
+Proof.
+  induction l as [|x t IH]; intros i; [reflexivity|]. cbn [map LexSet.index_of index_of_row].
+  destruct (posrow_eqb x p) eqn:E.
+  - apply posrow_eqb_eq in E. subst x. rewrite N.eqb_refl. reflexivity.
+  - destruct (enc x =? enc p) eqn:E2.
+    + apply N.eqb_eq in E2. apply enc_inj in E2. subst x.
+      assert (posrow_eqb p p = true) by (apply posrow_eqb_eq; reflexivity). congruence.
+    + replace (N.succ i) with (i + 1) by lia. apply IH.
+Qed.
+
+Theorem assign_refines_lexset : forall ps st st' ids, assign st ps = ROk (st', ids) ->
+  LexSet.assign_pos (map enc st) (map enc ps) = (map enc st', ids).
+Proof.
+  induction ps as [|p t IH]; intros st st' ids H; cbn [assign] in H.
+  - inversion H; subst. reflexivity.
+  - destruct (pos_of st p) as [[st1 id]|] eqn:Ep; [|discriminate]. cbn [bind fst snd] in H.
+    destruct (assign st1 t) as [[st2 ids']|] eqn:Et; [|discriminate]. cbn [bind fst snd] in H. inversion H; subst st' ids.
+    cbn [map LexSet.assign_pos]. unfold LexSet.register_pos. rewrite index_of_interned.
+    unfold pos_of in Ep. destruct (index_of_row p st 0) as [i|].
+    + inversion Ep; subst st1 id. cbv beta iota. rewrite (IH _ _ _ Et). reflexivity.
+    + destruct (cmp_eval CF.pos_limit_cmp (Z.of_nat (List.length st)) CF.MAX_POS_IDS); [discriminate|].
+      inversion Ep; subst st1 id. cbv beta iota. unfold LexSet.pos in *.
+      replace (map enc st ++ [enc p]) with (map enc (st ++ [p])) by (rewrite map_app; reflexivity).
+      rewrite (IH _ _ _ Et). rewrite map_length. f_equal. f_equal. lia.
+Qed.
+End Interned.
+
+(* ================================================================== the POS table *)
+Lemma concat_opt_app : forall a b x y, concat_opt a = Some x -> concat_opt b = Some y -> concat_opt (a ++ b) = Some (x ++ y).
+Proof.
+  induction a as [|o t IH]; intros b x y Ha Hb; cbn [concat_opt app] in *.
+  - inversion Ha; subst. exact Hb.
+  - destruct o as [o|]; [|discriminate]. destruct (concat_opt t) as [z|] eqn:Ez; [|discriminate]. inversion Ha; subst.
+    rewrite (IH b z y eq_refl Hb). rewrite app_assoc. reflexivity.
+Qed.
+Lemma concat_opt_app_inv : forall a b z, concat_opt (a ++ b) = Some z ->
+  exists x y, concat_opt a = Some x /\ concat_opt b = Some y /\ z = x ++ y.
+Proof.
+  induction a as [|o t IH]; intros b z H; cbn [concat_opt app] in *.
+  - exists [], z. auto.
+  - destruct o as [o|]; [|discriminate]. destruct (concat_opt (t ++ b)) as [w|] eqn:Ew; [|discriminate]. inversion H; subst.
+    destruct (IH b w Ew) as (x & y & -> & Hy & ->). exists (o ++ x), y. repeat split; [exact Hy|rewrite app_assoc; reflexivity].
+Qed.
+
+Lemma read_strings_written : len_thresholds_ok = true -> forall ss b rest,
+  Forall (fun s => forallb is_scalar s = true) ss ->
+  concat_opt (map write_string ss) = Some b ->
+  read_strings (List.length ss) (b ++ rest) = Some (ss, rest).
+Proof.
+  intros Hok. induction ss as [|s t IH]; intros b rest Hs H; cbn [map concat_opt List.length read_strings] in *.
+  - inversion H. reflexivity.
+  - inversion Hs as [|? ? Hs1 Hs2]; subst. destruct (write_string s) as [w|] eqn:Ew; [|discriminate].
+    destruct (concat_opt (map write_string t)) as [z|] eqn:Ez; [|discriminate]. inversion H; subst b.
+    rewrite <- app_assoc. rewrite (string_roundtrip Hok s w (z ++ rest) Hs1 Ew).
+    rewrite (IH z rest Hs2 eq_refl). reflexivity.
+Qed.
+
+Definition posrow_ok (r : posrow) : Prop := List.length r = 6%nat /\ Forall (fun s => forallb is_scalar s = true) r.
+
+Lemma read_pos_rows_written : len_thresholds_ok = true -> CF.POS_DEPTH = 6 -> forall rows b rest,
+  Forall posrow_ok rows ->
+  concat_opt (map write_string (List.concat rows)) = Some b ->
+  read_pos_rows (List.length rows) (b ++ rest) = Some (rows, rest).
+Proof.
+  intros Hok Hd. induction rows as [|r t IH]; intros b rest Hr H; cbn [List.concat List.length read_pos_rows] in *.
+  - cbn in H. inversion H. reflexivity.
+  - inversion Hr as [|? ? [Hl Hs] Ht]; subst. rewrite map_app in H.
+    destruct (concat_opt_app_inv _ _ _ H) as (x & y & Hx & Hy & ->).
+    rewrite Hd. replace (N.to_nat 6) with (List.length r) by (rewrite Hl; reflexivity). rewrite <- app_assoc.
+    pose proof (read_strings_written Hok r x (y ++ rest) Hs Hx) as K1. pose proof (IH y rest Ht Hy) as K2.
+    unfold posrow, text, bytes in *. rewrite K1, K2. reflexivity.
+Qed.
+
+(* the POS table the compiler writes is read back by the grammar reader row for row *)
+Theorem pos_table_roundtrip : len_thresholds_ok = true -> CF.POS_DEPTH = 6 -> forall rows b rest,
+  Forall posrow_ok rows -> N.of_nat (List.length rows) < 65536 ->
+  pos_table_bytes rows = Some b -> read_pos_table (b ++ rest) = Some (rows, rest).
+Proof.
+  intros Hok Hd rows b rest Hr Hn H. unfold pos_table_bytes in H.
+  destruct (concat_opt (map write_string (List.concat rows))) as [z|] eqn:Ez; [|discriminate].
+  assert (Hb : b = le16 (N.of_nat (List.length rows) mod 65536) ++ z) by (inversion H; reflexivity). subst b.
+  unfold read_pos_table. rewrite <- app_assoc.
+  rewrite N.mod_small by lia. rewrite read_le16_le16 by lia. rewrite Nat2N.id.
+  apply (read_pos_rows_written Hok Hd); assumption.
+Qed.
